@@ -8,6 +8,8 @@ CONSTANTS
   MaxEnv = 1
   ForeignAt = "name"
   RenderFails = FALSE
+  CacheMisses = FALSE
+  VerBumps = FALSE
   FailKinds = {"reqloop1"}
 VIEW view
 ACTION_CONSTRAINT Emit
